@@ -451,23 +451,18 @@ pub proof fn lemma_tails(v: RelV)
         None => { assert(tail0(v) =~= tail1(v)); }
     }
 }
-/// C14, first clause
-pub proof fn theorem_relation_roundtrip(v: RelV)
+/// stage 1: the architecture qualifier
+pub proof fn lemma_rt_archqual(v: RelV)
     requires valid_rel(v)
-    ensures read_relation_text(rel_text(v)) == Some(v)
+    ensures ({
+        let q = r_archqual(r_ws(rel_tokens_of(tail0(v))));
+        q is Some && q->Some_0.0 == v.archqual && r_ws(q->Some_0.1) == r_ws(rel_tokens_of(tail1(v)))
+    })
 {
     lemma_tails(v);
-    let t0 = tail0(v); let t1 = tail1(v); let t2 = tail2(v); let t3 = tail3(v);
-    assert(rel_text(v) =~= v.name + t0);
-    // the name
-    assert(no_ident_start(t0));
-    lemma_lex_ident(v.name, t0);
-    let ts = rel_tokens_of(rel_text(v));
-    assert(ts[0] == (IDENT, v.name));
-    assert(ts.skip(1) =~= rel_tokens_of(t0));
-    let y1 = r_ws(rel_tokens_of(t1)); let y2 = r_ws(rel_tokens_of(t2)); let y3 = r_ws(rel_tokens_of(t3));
-    lemma_r_ws_idem(rel_tokens_of(t1)); lemma_r_ws_idem(rel_tokens_of(t2)); lemma_r_ws_idem(rel_tokens_of(t3));
-    // the architecture qualifier
+    let t0 = tail0(v); let t1 = tail1(v);
+    let y1 = r_ws(rel_tokens_of(t1));
+    lemma_r_ws_idem(rel_tokens_of(t1));
     let a = r_ws(rel_tokens_of(t0));
     let q = r_archqual(a);
     match v.archqual {
@@ -492,26 +487,66 @@ pub proof fn theorem_relation_roundtrip(v: RelV)
             assert(q == Some((None::<Seq<char>>, y1)));
         }
     }
-    assert(q is Some && q->Some_0.0 == v.archqual && r_ws(q->Some_0.1) == y1);
-    // the version
+}
+/// stage 2: the version constraint
+pub proof fn lemma_rt_version(v: RelV)
+    requires valid_rel(v)
+    ensures ({
+        let ver = r_version(r_ws(rel_tokens_of(tail1(v))));
+        ver is Some && ver->Some_0.0 == v.version && r_ws(ver->Some_0.1) == r_ws(rel_tokens_of(tail2(v)))
+    })
+{
+    lemma_tails(v);
+    let t1 = tail1(v); let t2 = tail2(v);
+    let y1 = r_ws(rel_tokens_of(t1)); let y2 = r_ws(rel_tokens_of(t2));
+    lemma_r_ws_idem(rel_tokens_of(t2));
     let ver = r_version(y1);
     match v.version {
         Some(cv) => { lemma_read_version(cv.0, cv.1, t2); assert(ver == Some((Some(cv), rel_tokens_of(t2)))); }
         None => { assert(t1 =~= t2); assert(y1 == y2); assert(!hd(y2, L_PARENS)); assert(ver == Some((None::<(dc_relations::VersionConstraint, debversion::Version)>, y2))); }
     }
-    assert(ver is Some && ver->Some_0.0 == v.version && r_ws(ver->Some_0.1) == y2);
-    // the architecture list
+}
+/// stage 3: the architecture list
+pub proof fn lemma_rt_archs(v: RelV)
+    requires valid_rel(v)
+    ensures ({
+        let al = r_archlist(r_ws(rel_tokens_of(tail2(v))));
+        al is Some && al->Some_0.0 == v.archs && r_ws(al->Some_0.1) == r_ws(rel_tokens_of(tail3(v)))
+    })
+{
+    lemma_tails(v);
+    let t2 = tail2(v); let t3 = tail3(v);
+    let y2 = r_ws(rel_tokens_of(t2)); let y3 = r_ws(rel_tokens_of(t3));
+    lemma_r_ws_idem(rel_tokens_of(t3));
     let al = r_archlist(y2);
     match v.archs {
         Some(l) => { lemma_read_archlist(l, t3); assert(al == Some((Some(l), rel_tokens_of(t3)))); }
         None => { assert(t2 =~= t3); assert(y2 == y3); assert(!hd(y3, L_BRACKET)); assert(al == Some((None::<Seq<Seq<char>>>, y3))); }
     }
-    assert(al is Some && al->Some_0.0 == v.archs && r_ws(al->Some_0.1) == y3);
-    // the restriction lists and the end
+}
+/// stage 4: the restriction lists, up to the end of the text
+pub proof fn lemma_rt_groups(v: RelV)
+    requires valid_rel(v)
+    ensures r_groups(r_ws(rel_tokens_of(tail3(v))), Seq::empty()) == Some((v.profiles, Seq::<RTok>::empty()))
+{
     lemma_read_groups(v.profiles, Seq::empty());
     assert(Seq::<Seq<ProfV>>::empty() + v.profiles =~= v.profiles);
-    let gr = r_groups(y3, Seq::empty());
-    assert(gr == Some((v.profiles, Seq::<RTok>::empty())));
+}
+/// C14, first clause
+pub proof fn theorem_relation_roundtrip(v: RelV)
+    requires valid_rel(v)
+    ensures read_relation_text(rel_text(v)) == Some(v)
+{
+    lemma_tails(v);
+    let t0 = tail0(v);
+    assert(rel_text(v) =~= v.name + t0);
+    // the name
+    assert(no_ident_start(t0));
+    lemma_lex_ident(v.name, t0);
+    let ts = rel_tokens_of(rel_text(v));
+    assert(ts[0] == (IDENT, v.name));
+    assert(ts.skip(1) =~= rel_tokens_of(t0));
+    lemma_rt_archqual(v); lemma_rt_version(v); lemma_rt_archs(v); lemma_rt_groups(v);
     assert(r_ws(Seq::<RTok>::empty()).len() == 0);
     assert(rd_relation(ts) == Some(RelV { name: v.name, archqual: v.archqual, version: v.version, archs: v.archs, profiles: v.profiles }));
 }
